@@ -77,6 +77,9 @@ type Item struct {
 	A    int64  `json:"a,omitempty"`
 	B    int64  `json:"b,omitempty"`
 	Err  string `json:"e,omitempty"`
+	// endRun (readiness scenarios, not serialised): "cancel" / "deadline" = the harness ends Run's ctx
+	// inside the issuer callback, immediately before this answer is returned
+	endRun string
 }
 
 // reqRec is what the issuer saw and answered for one request.
@@ -120,6 +123,14 @@ type issuer struct {
 	// kind taErrKind.
 	taFailNext bool
 	taErrKind  string
+	// ignoreCtx (readiness scenarios): a gated request stays parked until the HARNESS answers it, also
+	// when the ctx handed to the fetch is done meanwhile (the issuer then returns what the harness says:
+	// success, an error, or that ctx's own Err()); quit releases parked requests at clean-up.
+	ignoreCtx bool
+	quit      chan struct{}
+	// beforeReturn is called (outside mu) with the reply item of request idx immediately before the
+	// issuer returns to the caller (used to cancel Run's ctx at the very moment the fetch returns).
+	beforeReturn func(idx int, it Item)
 }
 
 func (is *issuer) fn(ctx context.Context, csrDER []byte) ([]*x509.Certificate, error) {
@@ -145,10 +156,18 @@ func (is *issuer) fn(ctx context.Context, csrDER []byte) ([]*x509.Certificate, e
 	var it Item
 	if gate != nil {
 		is.reqCh <- idx
-		select {
-		case it = <-gate:
-		case <-ctx.Done():
-			return nil, ctx.Err()
+		if is.ignoreCtx {
+			select {
+			case it = <-gate:
+			case <-is.quit:
+				return nil, errors.New("harness clean-up: request abandoned")
+			}
+		} else {
+			select {
+			case it = <-gate:
+			case <-ctx.Done():
+				return nil, ctx.Err()
+			}
 		}
 	}
 	if it.Kind == "" {
@@ -164,6 +183,9 @@ func (is *issuer) fn(ctx context.Context, csrDER []byte) ([]*x509.Certificate, e
 	answeredAt := is.clk.Now()
 	if is.onAnswer != nil {
 		is.onAnswer(idx, it.Kind)
+	}
+	if is.beforeReturn != nil {
+		is.beforeReturn(idx, it)
 	}
 
 	finish := func(ok bool, nb, na time.Time) {
